@@ -124,6 +124,8 @@ fn gen_tpl(rng: &mut Rng, i: usize, earlier: &[Tpl], defaults: bool) -> Tpl {
             attrs.push((k.into(), val.into()));
             overridable = Some((k, val.to_string()));
         }
+        // a style of the template's own: the reuse element's style, when it has one, replaces it
+        if with_id && rng.chance(1, 4) { attrs.push(("style".into(), "stroke: blue".into())); }
         if with_id && !classes.is_empty() { attrs.push(("class".into(), classes.join(" "))); }
         if with_id && !lit && rng.chance(1, 3) { attrs.push(("class".into(), format!("{} c-$kind", classes.join(" ")).trim().to_string())); params.push("kind"); attrs.retain(|(k, vv)| !(k == "class" && !vv.contains("c-$kind"))); }
         X::El { name: name.into(), attrs, kids: None }
